@@ -2,6 +2,7 @@
 from __future__ import annotations
 
 import ast
+import re
 
 from fdlstatic import cfg as cfg_lib
 from fdlstatic import idmemo
@@ -62,6 +63,31 @@ def _policy_rules(ctx: Ctx, rs: RuleSet):
   rule = 'DOM.policy-gates'
   rs.declare(rule, 'imports and returned values of import_symbol are gated by '
              'the policy; fall-through raises', 4)
+  # a policy decision is taken per call: nothing that consults the policy or
+  # resolves a symbol may be memoised across calls (a cache keyed by the
+  # arguments answers for another policy instance that compares equal, or
+  # for a policy whose configuration has changed since)
+  rule_pc = 'DOM.policy-per-call'
+  rs.declare(rule_pc, 'functions that consult the policy or resolve symbols '
+             'dynamically carry no memoising decorator', 1)
+  for h in p.funcs.values():
+    if h.module.name != SER or h.is_lambda:
+      continue
+    consults = [e for e in walk_function(h.node) if isinstance(e, ast.Call) and (
+        (isinstance(e.func, ast.Attribute) and
+         e.func.attr in ('allows_import', 'allows_value')) or
+        p.resolve(e.func, h) in DYNAMIC_RESOLVERS)]
+    if not consults:
+      continue
+    memo = [unparse(d) for d in h.node.decorator_list
+            if re.search(r'\b(lru_cache|cache|cached_property)\b', unparse(d))]
+    rs.check(not memo, rule_pc, f'{h.qualname}:decorators',
+             'not memoised' if not memo else
+             f'decorated with {memo[0]}: a policy decision or a resolved '
+             'symbol is remembered across calls, so a later load under a '
+             'stricter policy (an equal-comparing instance, or the same '
+             'instance reconfigured) is answered without consulting it',
+             ctx.loc(h, h.node))
   f = ctx.func(f'{SER}.import_symbol')
   g = ctx.cfg(f)
   pol = f.params[0]
